@@ -195,17 +195,33 @@ def _r1(repo, L, m, ba):
 
 
 def _guard_min_owners(test) -> int | None:
-    """Least value of the premise count that satisfies a guard on it (None = not a count guard)."""
+    """Least value of the premise count that satisfies a guard on it (None = not a count guard).
+    Accepts both orientations: `count > 1`, `1 < count`, `count == 2`, `2 <= count`, ..."""
     if isinstance(test, ast.Compare) and len(test.ops) == 1:
         l, r, op = test.left, test.comparators[0], test.ops[0]
-        c = try_fold(r, default=None)
-        txt = norm(l)
-        if isinstance(c, int) and ("count" in txt or txt.startswith("len(")):
+
+        def is_count(e):
+            t = norm(e)
+            return "count" in t or t.startswith("len(")
+
+        cl, cr = try_fold(l, default=None), try_fold(r, default=None)
+        if is_count(l) and isinstance(cr, int):
+            c = cr
             if isinstance(op, ast.Eq):
                 return c
             if isinstance(op, ast.Gt):
                 return c + 1
             if isinstance(op, ast.GtE):
+                return c
+            if isinstance(op, ast.NotEq):
+                return 0 if c != 0 else 1
+        if is_count(r) and isinstance(cl, int):
+            c = cl
+            if isinstance(op, ast.Eq):
+                return c
+            if isinstance(op, ast.Lt):
+                return c + 1
+            if isinstance(op, ast.LtE):
                 return c
             if isinstance(op, ast.NotEq):
                 return 0 if c != 0 else 1
